@@ -8,7 +8,7 @@ ASSUMPTIONS = A01 + ["mode selection, task generators and offset re-mapping are 
 TRUSTED = T01 + ["T-SER; pool.map/imap ordered (assumed)"]
 
 
-def tasks(tier):
+def _tasks0(tier):
     from props.combine_parents import parent_tasks
     return combine_tasks("C06") + parent_tasks(tier)
 
@@ -33,3 +33,10 @@ def scenarios(tier, seed):
 def run_scenario(p, wd):
     from harness.rt_tools import run_combine_scenario
     return run_combine_scenario(p, wd)
+
+
+
+def tasks(tier):
+    # the FAB header parsers / formatter (real bodies on canonical header text): the obligations behind the header contracts
+    from props.parsers import parser_tasks
+    return _tasks0(tier) + parser_tasks("C06", nds=(2, 3))
